@@ -61,7 +61,9 @@ STATIC = {"/hm": [b"k1"], "/hm2": [b"k2a", b"k2b"], "/rot": [b"inl"], "/rot2": [
 
 FWD_CLASS = {"200": "F2xx", "204": "F2xx", "299": "F2xx", "200hdr": "F2xx", "302loc": "F2xx", "401": "F401", "403": "F403",
              "500": "FOther", "503": "FOther", "302": "FOther", "404": "FOther", "300": "FOther", "199": "FOther", "400": "FOther",
-             "hang": "FTimeout", "drop": "FUnreachable"}
+             "hang": "FTimeout", "drop": "FUnreachable",
+             # final statuses below 200 written on the raw connection; raw100 = informational responses only, then the connection closes
+             "raw101": "FOther", "raw099": "FOther", "raw000": "FOther", "raw100": "FUnreachable"}
 
 
 class Gen:
@@ -263,7 +265,8 @@ class Gen:
                 self.add(route, "basic-bit", "POST", route, hdr(bytes(b)), b"{}")
 
     def forward_family(self):
-        for beh in ("200", "204", "299", "200hdr", "302loc", "401", "403", "500", "503", "302", "404", "300", "199", "400", "drop"):
+        for beh in ("200", "204", "299", "200hdr", "302loc", "401", "403", "500", "503", "302", "404", "300", "199", "400", "drop",
+                    "raw101", "raw099", "raw000", "raw100"):
             for body in (b"", b'{"x":1}'):
                 self.add("/fwd", "fwd-" + beh, "POST", "/fwd", [("X-Caller", "c1")], body, fwd=beh)
         self.add("/fwd", "fwd-hang", "POST", "/fwd", [], b"{}", fwd="hang")
